@@ -9,7 +9,7 @@ int main() {
   for (long xv = -205887; xv <= 205887; ++xv) {
     long ax = xv < 0 ? -xv : xv; ++evals;
     fixed_t r = tan(as_fixed(xv));
-    if (ax % 205887 == 102944) { if (!isnan(r)) { ++fails; } continue; }   // odd multiple of the library's pi/2
+    if (ax % 205887 == 102944) { if (!isnan(r)) { if (fails < 5) { char buf[200]; snprintf(buf, sizeof buf, "%s{\"what\":\"tan not NaN at the pole\",\"x_raw\":%ld,\"result_raw\":%ld}", fails ? "," : "", xv, (long)r.v); first += buf; } ++fails; } continue; }   // odd multiple of the library's pi/2
     long double t = tanl((long double)xv / 65536), b = 2.5L / 65536 * (1 + t * t), e = fabsl((long double)r.v / 65536 - t);
     if (e / b > worst) { worst = e / b; worst_x = xv; }
     if (isnan(r) || e > b) { if (fails < 5) { char buf[200]; snprintf(buf, sizeof buf, "%s{\"what\":\"tan error %.3Lf of bound\",\"x_raw\":%ld,\"result_raw\":%ld}", fails ? "," : "", e / b, xv, (long)r.v); first += buf; } ++fails; }
